@@ -112,7 +112,14 @@ func Generate(seed uint64, id, family string) *sdl.Program {
 	r := newRng(seed)
 	switch family {
 	case FamWire:
-		return genGraph(r, seed, id, family, wireKnobs(r))
+		p := genGraph(r, seed, id, family, wireKnobs(r))
+		// some holders come with a slice point that already holds one of its candidates
+		for _, i := range p.Instances {
+			if r.p(0.1) {
+				i.Prefilled = true
+			}
+		}
+		return p
 	case FamLarge:
 		k := wireKnobs(r)
 		k.MinTypes, k.MaxTypes = 20, 120
@@ -141,8 +148,31 @@ func Generate(seed uint64, id, family string) *sdl.Program {
 			}
 			if r.p(0.3) && len(p.Instances) > 0 {
 				post.Name = p.NameOf(pick(r, p.Instances)) // may be of an incompatible type
+			} else if r.p(0.4) {
+				// the default (package/type) name of a component that declares a custom name:
+				// nothing is registered under it
+				for _, i := range p.Instances {
+					nOfType := 0
+					for _, j := range p.Instances {
+						if j.Type == i.Type {
+							nOfType++
+						}
+					}
+					if i.Alias != "" && i.Type != t.Name && nOfType == 1 && !p.TypeByName(i.Type).Zero && p.ByNameCount(sdl.DefaultName(i.Type)) == 0 {
+						post.Name = sdl.DefaultName(i.Type)
+						if post.Kind == sdl.KPtr {
+							post.Target = i.Type
+						}
+						break
+					}
+				}
 			}
 			t.Points = append(append([]*sdl.Point{pre}, t.Points...), post)
+		}
+		for _, i := range p.Instances {
+			if r.p(0.3) {
+				i.Preset = true
+			}
 		}
 		// requested names written as placeholders (with a default), next to an optional
 		// configuration field whose key is absent
